@@ -211,8 +211,9 @@ pub fn abort_site(stderr: &str) -> (Option<String>, String) {
 /// against the input's size" — is one, and a signature per site would make new seeds find new
 /// "violations" of the same thing for ever.
 fn qualified_sig(sig: &str, msg: &str, sub: &str) -> String {
-    if sub == "codec-streams" && sig.starts_with("abort:") && msg.contains("memory allocation of") {
-        return "abort:SIGABRT:memory-allocation-refused@codec-streams".to_string();
+    // (the same for the forked batches of C15's file targets, which run under a cap as well)
+    if sig.starts_with("abort:") && msg.contains("memory allocation of") {
+        return format!("abort:SIGABRT:memory-allocation-refused@{sub}");
     }
     if sig == "hang" || (sig.starts_with("abort:") && sig.matches(':').count() < 2) { format!("{sig}@{sub}") } else { sig.to_string() }
 }
